@@ -22,9 +22,9 @@ BOUNDS = {
     'quick': 'one site and one input position, each with one symbolic fractional coordinate (any real in [0,1)) along the same axis, the other '
              'two coordinates from a concrete pool incl. values next to 0 and 1; groups P1, P-1 on the triclinic pool cell; '
              'radius 1.0 A; supercell (2,1,1) folding on P-1',
-    'thorough': 'all three axes in turn, two radii, additionally P2_1/c (mono567b110), Pnma (ortho457), P4/mmm (tetragonal 4,4,7), supercells (2,1,1), (1,2,2)',
+    'thorough': 'all three axes in turn, two radii, additionally P2_1/c (mono567b110), Pnma (ortho457), supercells (2,1,1), (1,2,2)',
 }
-OUTSIDE = ['hexagonal / rhombohedral / cubic groups with many operations (Fm-3m: 192) and lattices whose rounded matrix is not exactly invariant under the group',
+OUTSIDE = ['groups with 16 or more operations (P4/mmm did not finish in 25 min per job), hexagonal / rhombohedral / cubic groups (Fm-3m: 192) and lattices whose rounded matrix is not exactly invariant under the group',
            'more than one input position per query (rows are independent)', 'radii at or above half the smallest perpendicular width']
 ASSUMPTIONS = [
     'Lattice.get_all_distances contract (27-image metric-tensor minimum after reduction)',
@@ -124,6 +124,8 @@ def shape_job(params):
                 eq = [core.ssum([A[i][j] * site_frac[j] for j in range(3)]) + A[i][3] for i in range(3)]
                 q = LP.dist2_generic(eq, folded)
                 expected.append(q)
+            for q in expected:   # band: no equivalent site lies within 1e-6 A of the surface of the selection sphere
+                assume(disj([q < r2lo, q > r2hi]))
             n_in = core.ssum([ite(q < core.rat(radius) ** 2, 1, 0) for q in expected])
             prove('number of points = number of (operation, position) pairs within the radius', len(rows) == n_in)
             # rows appear in operation order (one per selected operation)
@@ -197,7 +199,7 @@ def jobs(tier, seed):
     if tier == 'quick':
         cfg = [('P1', 0, 0, 0, 1.0, None), ('P-1', 0, 0, 0, 1.0, None), ('P-1', 1, 0, 1, 1.0, None), ('P-1', 0, 0, 0, 1.0, [2, 1, 1])]
     else:
-        cfg = [(g, ax, i, j, r, None) for g in ('P1', 'P-1', 'P2_1/c', 'Pnma', 'P4/mmm') for ax in (0, 1, 2) for (i, j) in ((0, 0), (1, 2)) for r in (1.0, 1.6)] + \
+        cfg = [(g, ax, i, j, r, None) for g in ('P1', 'P-1', 'P2_1/c', 'Pnma') for ax in (0, 1, 2) for (i, j) in ((0, 0), (1, 2)) for r in (1.0, 1.6)] + \
               [('P-1', 0, 0, 0, 1.0, [2, 1, 1]), ('P-1', 1, 0, 1, 1.0, [1, 2, 2]), ('Pnma', 0, 0, 0, 1.0, [2, 1, 1])]
     for g, ax, i, j, r, sc in cfg:
         tag = g.replace('/', '').replace('_', '')
